@@ -589,7 +589,17 @@ func init() {
 		"transport is the fakegrpc model (ordered reliable frames per stream, window 2); Go primitives are the gomc shims",
 		"interleavings are explored up to the reported deviation bound from the non-preemptive round-robin schedule; free choices (arrival order, select ties) are exhaustive",
 	}
-	register(&Check{ID: "C01", Rule: rule, Gen: qcInstances, Assumptions: assume})
+	register(&Check{ID: "C01", Rule: rule + "; plus C05's stalled-sender family restricted to quorum calls (an earlier quorum call of the same goroutine has left a request queued behind a stalled sender): every reply shown to the second call's quorum function is the one the node's handler produced for that call's own request",
+		Gen: func(tier string) []Instance {
+			out := qcInstances(tier)
+			for _, in := range xtalkInstances(tier) {
+				if strings.HasPrefix(in.Name, "stalled-sender/QuorumCall") && !strings.Contains(in.Name, ";Correctable") && !strings.Contains(in.Name, ";GRPCCall") {
+					in.Name = "after-earlier-call/" + in.Name
+					out = append(out, in)
+				}
+			}
+			return out
+		}, Assumptions: assume})
 	register(&Check{ID: "C02", Rule: rule + "; plus a quorum call issued after a one-way message (unicast / multicast, with and without no-send-waiting) and a reset of the node's stream, which must return success when both nodes answer; plus the connection-fault instances of C07 for one failing node of two (crash, reset, crash+restart struck by an adversary thread, also while the request is still queued), where an Incomplete result must account for exactly the nodes that failed - never while a targeted node is still silent and the context alive",
 		Gen: func(tier string) []Instance {
 			out := qcInstances(tier)
